@@ -166,6 +166,11 @@ impl Schedule {
         transitions: HashMap<VehicleTypeIdx, Transition>,
     ) -> Self {
         let mut new_schedule = self.clone();
+        // the cached violation is the sum over the transitions of all types
+        new_schedule.maintenance_violation = transitions
+            .values()
+            .map(|transition| transition.maintenance_violation())
+            .sum();
         new_schedule.next_period_transitions = transitions;
         new_schedule
     }
